@@ -185,17 +185,22 @@ def run(call: GeneratorCall) -> Module:
             msg = f"Generator {call.gen} returned {m}, must return `Module`."
             raise RuntimeError(msg)
 
+        # A Module handed on from another generator call has been named by that call already.
+        # Its name must not depend on which generators have returned it since: leave it as it is.
+        handed_on = m._generated_by is not None
+
         # Give the result a reference back to the generating `Call`
         m._generated_by = call
 
-        # Module naming
-        # If the Module that comes back is anonymous, start by giving it a name equal to the Generator's
-        if m.name is None:
-            m.name = call.gen.name
+        if not handed_on:
+            # Module naming
+            # If the Module that comes back is anonymous, start by giving it a name equal to the Generator's
+            if m.name is None:
+                m.name = call.gen.name
 
-        # If it has a nonzero number of parameters, add a unique suffix per its parameter-values
-        if hasparams(call.gen.Params):
-            m.name += "(" + _unique_name(call.params) + ")"
+            # If it has a nonzero number of parameters, add a unique suffix per its parameter-values
+            if hasparams(call.gen.Params):
+                m.name += "(" + _unique_name(call.params) + ")"
     except Exception:
         # The call failed, and is no longer in flight. A later, identical call runs the generator again.
         the_cache.stack.pop()
